@@ -75,7 +75,10 @@ func (ec *Collector) Len() int { defer with(lock(&ec.mu)); return ec.stack.Len()
 // collector.
 func (ec *Collector) Iterator() *fun.Iterator[error] {
 	defer with(lock(&ec.mu))
-	return fun.CheckProducer(ec.stack.CheckProducer()).Iterator()
+	// Add modifies the head of the stack in place (the rest of the
+	// stack is immutable,) so iterate from a copy of the head.
+	head := ec.stack
+	return fun.CheckProducer(head.CheckProducer()).Iterator()
 }
 
 // Resolve returns an error of type *erc.Stack, or nil if there have
